@@ -87,4 +87,128 @@ theorem save_result (fs : FS) (file : Path) (text : Bytes) :
   rw [read_put_same]
   rfl
 
+/-! ### the dictionary -/
+
+/-- the trace of an operation is empty or one `_save` of the new memory -/
+theorem trace_shape {V} (ser : Mem V → Bytes) (file : Path) (m : Mem V) (op : Op V) :
+    (opStep ser file m op).2.1 = [] ∨
+    (opStep ser file m op).2.1 = saveTrace file (ser (opStep ser file m op).1) := by
+  cases op with
+  | set k v => simp only [opStep]; split <;> simp
+  | del k =>
+    simp only [opStep]
+    split
+    · simp
+    · dsimp only; split <;> simp
+  | pop k =>
+    simp only [opStep]
+    split
+    · simp
+    · dsimp only; split <;> simp
+  | mutate k v => simp only [opStep]; split <;> simp
+
+theorem load_of_read {V} (parse : Bytes → Option (Mem V)) (fs fs' : FS) (file : Path)
+    (h : fs'.read file = fs.read file) : load parse fs' file = load parse fs file := by
+  unfold load; rw [h]
+
+/-- CRASH CONSISTENCY of a dictionary operation: a crash at any point of it (any prefix of its
+    system calls, any partial write) leaves a file that loads as the dictionary before the operation
+    or as the dictionary after it — never empty, never unreadable. -/
+theorem op_crash_atomic {V} (ser : Mem V → Bytes) (parse : Bytes → Option (Mem V))
+    (hrt : ∀ m, parse (ser m) = some m) (file : Path) (m : Mem V) (fs : FS) (op : Op V)
+    (fs' : FS) (h : fs' ∈ crashStates fs (opStep ser file m op).2.1) :
+    load parse fs' file = load parse fs file ∨ load parse fs' file = (opStep ser file m op).1 := by
+  rcases trace_shape ser file m op with ht | ht
+  · rw [ht] at h
+    simp only [crashStates, List.mem_singleton] at h
+    subst h
+    exact Or.inl rfl
+  · rw [ht] at h
+    rcases (crash_atomic fs file _ fs' h).1 with hr | hr
+    · exact Or.inl (load_of_read parse fs fs' file hr)
+    · right
+      unfold load
+      rw [hr]
+      simp only [hrt]
+      rfl
+
+/-- Every operation that saves at all leaves file and memory in agreement — whatever was changed
+    in place before it. -/
+theorem save_resyncs {V} (ser : Mem V → Bytes) (parse : Bytes → Option (Mem V))
+    (hrt : ∀ m, parse (ser m) = some m) (file : Path) (m : Mem V) (fs : FS) (op : Op V)
+    (h : (opStep ser file m op).2.1 ≠ []) :
+    load parse (fs.run (opStep ser file m op).2.1) file = (opStep ser file m op).1 := by
+  rcases trace_shape ser file m op with ht | ht
+  · exact absurd ht h
+  · rw [ht]
+    unfold load
+    rw [save_result]
+    simp only [hrt]
+    rfl
+
+def isMutate {V} : Op V → Bool
+  | .mutate .. => true
+  | _ => false
+
+/-- run a history of operations: memory and file system -/
+def runOps {V} (ser : Mem V → Bytes) (file : Path) : Mem V × FS → List (Op V) → Mem V × FS
+  | s, [] => s
+  | (m, fs), op :: rest =>
+    runOps ser file ((opStep ser file m op).1, fs.run (opStep ser file m op).2.1) rest
+
+theorem step_sync {V} (ser : Mem V → Bytes) (parse : Bytes → Option (Mem V))
+    (hrt : ∀ m, parse (ser m) = some m) (file : Path) (hf : file ≠ []) (m : Mem V) (fs : FS) (op : Op V)
+    (hop : isMutate op = false) (hs : load parse fs file = m) :
+    load parse (fs.run (opStep ser file m op).2.1) file = (opStep ser file m op).1 := by
+  by_cases ht : (opStep ser file m op).2.1 = []
+  · rw [ht]
+    have hm : (opStep ser file m op).1 = m := by
+      have hfe : file.isEmpty = false := by cases file <;> simp_all
+      cases op with
+      | set k v => simp [opStep, hfe, saveTrace] at ht
+      | del k =>
+        simp only [opStep] at ht ⊢
+        split <;> rename_i hg
+        · rfl
+        · simp [hg, hfe, saveTrace] at ht
+      | pop k =>
+        simp only [opStep] at ht ⊢
+        split <;> rename_i hg
+        · rfl
+        · simp [hg, hfe, saveTrace] at ht
+      | mutate k v => simp [isMutate] at hop
+    rw [hm]
+    exact hs
+  · exact save_resyncs ser parse hrt file m fs op ht
+
+/-- RESTART: after any history of assignments, deletions and pops, a new instance loading the
+    file holds exactly the dictionary the old instance held. -/
+theorem restart_sees_all {V} (ser : Mem V → Bytes) (parse : Bytes → Option (Mem V))
+    (hrt : ∀ m, parse (ser m) = some m) (file : Path) (hf : file ≠ []) :
+    ∀ (ops : List (Op V)) (m : Mem V) (fs : FS), (∀ op ∈ ops, isMutate op = false) →
+      load parse fs file = m →
+      load parse (runOps ser file (m, fs) ops).2 file = (runOps ser file (m, fs) ops).1
+  | [], m, fs, _, hs => hs
+  | op :: rest, m, fs, hops, hs => by
+    unfold runOps
+    exact restart_sees_all ser parse hrt file hf rest _ _ (fun o ho => hops o (by simp [ho]))
+      (step_sync ser parse hrt file hf m fs op (hops op (by simp)) hs)
+
+/-! ### the five store files -/
+
+theorem store_files_distinct (dir name : Path) :
+    ∀ s ∈ storeSuffixes, ∀ t ∈ storeSuffixes,
+      (storeFile dir name s = storeFile dir name t → s = t) ∧
+      tmpOf (storeFile dir name s) ≠ storeFile dir name t := by
+  have key : ∀ s ∈ storeSuffixes, ∀ t ∈ storeSuffixes, s ++ tmpSuffix ≠ t := by decide +kernel
+  intro s hs t ht
+  constructor
+  · intro h
+    unfold storeFile at h
+    exact List.append_cancel_left h
+  · intro h
+    unfold tmpOf storeFile at h
+    rw [List.append_assoc] at h
+    exact key s hs t ht (List.append_cancel_left h)
+
 end SmppVerif.Lemmas.Persist
